@@ -6,6 +6,7 @@ import Gotree.Model.C01Lit
   Handler of the C01 case lines (see harness/c01/c01.go for the producer).
 
     C01.rt     dump(orig)  text1  outcome  dump(reread)  text2
+    C01.rt0    dump(orig)  signbits  text1  outcome  dump(reread)  signbits  text2   (trees holding -0.0)
     C01.parse  text  outcome  dump(tree)                       (malformed / odd texts: tie only)
     C01.float  literal  class  value  fmt  back                 (strconv against goCodec, and the codec laws on strconv's own output)
     C01.multi  text  outcome-classes  dumps                      (one Parser, Parse() until it fails: tie only)
@@ -59,6 +60,28 @@ def outcomeClass {α} : Outcome α → String
 def isPrefixStr (p s : String) : Bool := p.toList.isPrefixOf s.toList
 
 def bytesOf (s : String) : Option (List UInt8) := (unescapeBytes s.toList ByteArray.empty).map (·.toList)
+
+/-- does a dump (or several, `|`-joined) hold a non-finite VALUE: only the `e<len>,<sup>,<pval>,<id>` tokens are looked
+    at (names `n…` and comments `c…`/`k…` may well contain "inf" or "nan") -/
+def dumpHasNonfinite (dumps : String) : Bool :=
+  ((dumps.replace "|" " ").splitOn " ").any fun tok =>
+    tok.front == 'e' && ((dropFirst tok).splitOn ",").any fun v => v == "nan" || v == "+inf" || v == "-inf"
+
+/-- bytes given as a node comment and as a branch comment went through write + parse (defect F2 in comments) -/
+def utf8cCase (be outcome nc2e ec2e : String) : Verdict :=
+    match bytesOf be, bytesOf nc2e, bytesOf ec2e with
+    | some b, some n2, some e2 =>
+      let valid := (unescape be).isSome
+      let tags := ["nontrivial-aux", "comment"] ++ tagIf valid "validutf8" ++ tagIf (!valid) "invalidutf8"
+      if outcome == "ok" && b == n2 && b == e2 then ⟨.pass, tags, ""⟩
+      else
+        -- F2 in a comment: only when the bytes are not valid UTF-8 and BOTH comments came back as exactly
+        -- ReadRune's lossy decoding of them
+        let lossy := (String.ofList (decodeLossy b)).toUTF8.toList
+        if outcome == "ok" && !valid && n2 == lossy && e2 == lossy then
+          ⟨.oracle, tags, "class=F2-invalid-utf8-comment comment " ++ be ++ " comes back as " ++ nc2e⟩
+        else ⟨.oracle, tags, "comment " ++ be ++ " comes back as " ++ nc2e ++ " / " ++ ec2e ++ " (" ++ outcome ++ ")"⟩
+    | _, _, _ => bad "C01.utf8c fields"
 
 /-- a name given as bytes went through write + parse: `where_` says which name -/
 def utf8Case (namee outcome name2e where_ : String) : Verdict :=
@@ -127,6 +150,31 @@ def handle (op : String) (f : List String) : Verdict :=
             else ⟨.pass, tags ++ tagIf (roundTripOK t t2 text1 text2) "roundtrip" ++ tagIf (wf && mt.dump == t.normIds.dump) "thm-instance", ""⟩
           | o => ⟨.tie, tags, "model outcome " ++ outcomeClass o⟩
     | _, _, _ => bad "C01.rt fields"
+  | "rt0", [dump, signs1, text1e, outcome, dump2, signs2, text2e] =>
+    -- a tree holding -0.0 (the rational 0 in the dump): the oracle also compares the sign bits before and after.
+    -- `Rat` has no -0, so the model's WRITER is not compared here (it prints 0); its reader is.
+    match T.undump dump, unescape text1e, unescape text2e with
+    | some t, some text1, some text2 =>
+      let wf := WF01 goCodec.isFloat isF64 t
+      let tt := treeTags t
+      let tags := ["negzero-tree"] ++ tagIf wf "wf01" ++ tagIf (!wf) "nonwf" ++
+        tagIf (wf && tt.contains "rule") "nontrivial" ++ tagIf (!wf && tt.contains "rule") "nontrivial-aux" ++ tt
+      if wf && outcome != "ok" then ⟨.oracle, tags, "Parse(Newick(t)) fails: " ++ outcome⟩ else
+      if outcome != "ok" then ⟨.pass, "rejected" :: tags, ""⟩ else
+      match T.undump dump2 with
+      | none => bad "C01.rt0 dump2"
+      | some t2 =>
+        if wf && !(roundTripOK t t2 text1 text2) then
+          ⟨.oracle, tags, (if sameTree t t2 then "second text differs from the first" else "re-read tree differs from the original") ++
+            " text1=" ++ escape text1⟩
+        else if wf && signs1 != signs2 then ⟨.oracle, tags, "a sign bit (-0.0) is lost: " ++ signs1 ++ " -> " ++ signs2 ++ " text1=" ++ escape text1⟩
+        else match parseStr goCodec text1, Lit.parseL goCodec text1.toList with
+          | .ok mt, .ok ml =>
+            if mt.dump != t2.dump then ⟨.tie, tags, "model parse " ++ mt.dump⟩
+            else if ml.dump != mt.dump then ⟨.tie, tags, "literal node-stack machine differs"⟩
+            else ⟨.pass, tags ++ tagIf (roundTripOK t t2 text1 text2 && signs1 == signs2) "roundtrip", ""⟩
+          | o, _ => ⟨.tie, tags, "model outcome " ++ outcomeClass o⟩
+    | _, _, _ => bad "C01.rt0 fields"
   | "parse", [texte, outcome, dump2] =>
     match unescape texte with
     | none => bad "C01.parse text"
@@ -143,7 +191,7 @@ def handle (op : String) (f : List String) : Verdict :=
       match m with
       | .unrep _ =>
         -- Go succeeds and stores NaN/±Inf, which the dump shows
-        if outcome == "ok" && ((dump2.splitOn "inf").length > 1 || (dump2.splitOn "nan").length > 1) then ⟨.pass, tags, ""⟩
+        if outcome == "ok" && dumpHasNonfinite dump2 then ⟨.pass, tags, ""⟩
         else ⟨.tie, tags, "model unrep, implementation " ++ outcome⟩
       | .ok mt =>
         if outcome != "ok" then ⟨.tie, tags, "model ok, implementation " ++ outcome⟩
@@ -166,7 +214,7 @@ def handle (op : String) (f : List String) : Verdict :=
       let tags := ["multi" ++ toString nok] ++ tagIf (nok ≥ 2) "nontrivial-aux"
       -- an `unrep` of the model stands for a Go success with a non-finite value: compare up to there
       if mcls.contains "unrep" then
-        (if (dumps.splitOn "inf").length > 1 || (dumps.splitOn "nan").length > 1 then ⟨.pass, "unrep" :: tags, ""⟩
+        (if dumpHasNonfinite dumps then ⟨.pass, "unrep" :: tags, ""⟩
          else ⟨.tie, tags, "model unrep, implementation " ++ classes⟩)
       else if mcls != cls.map (fun c => if isPrefixStr "panic" c then "panic" else c) then
         ⟨.tie, tags, "model outcomes " ++ ",".intercalate mcls⟩
@@ -188,7 +236,7 @@ def handle (op : String) (f : List String) : Verdict :=
       let tags := ["more" ++ toString nok] ++ tagIf (nok ≥ 2) "nontrivial-aux"
       -- an `unrep` of the model stands for a Go success with a non-finite value: compare up to there
       if mcls.contains "unrep" then
-        (if (dumps.splitOn "inf").length > 1 || (dumps.splitOn "nan").length > 1 then ⟨.pass, "unrep" :: tags, ""⟩
+        (if dumpHasNonfinite dumps then ⟨.pass, "unrep" :: tags, ""⟩
          else ⟨.tie, tags, "model unrep, implementation " ++ classes⟩)
       else if mcls != cls.map (fun c => if isPrefixStr "panic" c then "panic" else c) then
         ⟨.tie, tags, "model outcomes " ++ ",".intercalate mcls⟩
@@ -229,6 +277,7 @@ def handle (op : String) (f : List String) : Verdict :=
   | "utf8", [namee, outcome, name2e, _text1e, _text2e] =>
     -- the bytes sit in a tip name (`C01.utf8`) …
     utf8Case namee outcome name2e "tip"
+  | "utf8c", [be, outcome, nc2e, ec2e, _text1e] => utf8cCase be outcome nc2e ec2e
   | "utf8i", [namee, outcome, name2e, _text1e, _text2e] =>
     -- … or in the name of an inner node (`C01.utf8i`): a name all the same
     utf8Case namee outcome name2e "inner"
